@@ -241,6 +241,8 @@ class Crate:
             schema, doc = entry['_schema'], entry['_doc']
             b = gen.Builder(schema, doc, entry, self.tier)
             for op in self.ops_for(entry, 'response'):
+                if op.name in entry.get('no_relational', []) and self.tier == 'quick':
+                    continue
                 bn = f'resp_{entry["name"]}_{gen.snake(op.name)}'
                 try:
                     code, sites = b.response_builder(op, f'b_{bn}')
